@@ -47,6 +47,11 @@ def _case(draw):
     if what == "mog_rows" and c.get("ctx") is None:
         c["ctx"] = 2
         c["spec"] = {"t": "lu", "identity_init": False, "cache": False} if c["shape"][0] > 1 else {"t": "paffine", "shift": 0.5, "scale": 2.0}
+    if what == "pairing" and draw(st.integers(0, 11)) == 0:
+        # a gated linear unit whose single gate (context of width 1) is broadcast over all features
+        c["shape"], c["ctx"], c["dom"], c["base"] = [draw(st.integers(2, 4))], 1, "R", draw(st.sampled_from(["standard", "conditional"]))
+        c["spec"] = {"t": "composite", "parts": [{"t": "lu", "identity_init": False, "cache": False}, {"t": "glu"}]}
+        c["narrow"] = 0.0
     c["rows"] = draw(st.sampled_from([1, 2, 3, 4]))
     c["n"] = draw(st.integers(1, 7))
     c["embed"] = draw(st.booleans())
